@@ -286,7 +286,7 @@ pub fn run(ctx: &mut RunCtx) {
             ctx.note(format!("wrapper {w} not usable ({}): {q}", e.text()));
         }
     }
-    let n = ctx.tier.pick(1_600_000, 10_000_000);
+    let n = ctx.tier.pick(1_600_000, 40_000_000);
     ctx.explore(
         "poison-row",
         "15 raising projections (conversions, index/key type errors, labels()/type() on non-entities, comprehension, nested in binary/list/CASE, percentileDisc/Cont out of range) x 27 wrappers, poison row at a generated position among 0-5 good rows, literals or parameters; non-trivial = the plain RETURN form raised (and the same rows without the poison row did not)",
